@@ -234,10 +234,16 @@ def finish(res, level, coverage_extra, assumptions, proof_ok, search_fn=None):
     impl_fail = res.corr['impl_failures']
     model_dis = res.corr['model_disagreements']
     unknown_impl = []
+    announced = set()
+
+    def announce(k):
+        if k.get('id') not in announced:
+            announced.add(k.get('id'))
+            print(f"KNOWN-FINDING: property={prop} {k.get('what', k.get('id'))}", flush=True)
     for f in impl_fail:
         k = matches_known(prop, f, known)
         if k:
-            print(f"KNOWN-FINDING: property={prop} {k.get('what', k.get('id'))}", flush=True)
+            announce(k)
         else:
             unknown_impl.append(f)
     broken_tie = (not proof_ok) or bool(model_dis)
@@ -254,7 +260,7 @@ def finish(res, level, coverage_extra, assumptions, proof_ok, search_fn=None):
         for f in cands:
             k = matches_known(prop, f, known)
             if k:
-                print(f"KNOWN-FINDING: property={prop} {k.get('what', k.get('id'))}", flush=True)
+                announce(k)
             elif found is None:
                 found = f
     if found is not None:
